@@ -7,11 +7,13 @@ import (
 
 	"github.com/csgura/fp"
 	"github.com/csgura/fp/as"
+	"github.com/csgura/fp/eq"
 	"github.com/csgura/fp/hash"
 	"github.com/csgura/fp/iterator"
 	"github.com/csgura/fp/lazy"
 	"github.com/csgura/fp/monoid"
 	"github.com/csgura/fp/ord"
+	"github.com/csgura/fp/seq"
 
 	"verifharness/kit"
 )
@@ -571,6 +573,39 @@ func TestIteratorPkg(t *testing.T) {
 	comb(t, "iterator.Max", uXS|uIK, "Max = largest element or None.",
 		func(e *env) any { return optS(iterator.Max(e.it(e.xs), intOrd)) },
 		func(e *env) any { return refMinMax(e.xs, true) })
+	// ties: elements that compare equal under the Ord but are distinguishable. Which of them Min/Max returns is
+	// part of "the same elements as the eager Seq computation", so the reference here is seq.Min/seq.Max itself.
+	comb(t, "iterator.Min/tied-keys", uXS|uIK, "Records (key = x mod 3, position) ordered by key only: iterator.Min returns the same record as seq.Min over the same records.",
+		func(e *env) any { return show(iterator.Min(iterator.Map(e.it(positions(e.xs)), recAt(e.xs)), keyOrd)) },
+		func(e *env) any { return show(seq.Min(records(e.xs), keyOrd)) })
+	comb(t, "iterator.Max/tied-keys", uXS|uIK, "Records (key = x mod 3, position) ordered by key only: iterator.Max returns the same record as seq.Max over the same records.",
+		func(e *env) any { return show(iterator.Max(iterator.Map(e.it(positions(e.xs)), recAt(e.xs)), keyOrd)) },
+		func(e *env) any { return show(seq.Max(records(e.xs), keyOrd)) })
+}
+
+// keyed is a record ordered by Key only; Pos tells tied records apart.
+type keyed struct{ Key, Pos int }
+
+var keyOrd = ord.New(eq.New(func(a, b keyed) bool { return a.Key == b.Key }), func(a, b keyed) bool { return a.Key < b.Key })
+
+func positions(xs []int) []int {
+	r := make([]int, len(xs))
+	for i := range r {
+		r[i] = i
+	}
+	return r
+}
+
+func recAt(xs []int) func(int) keyed {
+	return func(i int) keyed { return keyed{Key: ((xs[i] % 3) + 3) % 3, Pos: i} }
+}
+
+func records(xs []int) fp.Seq[keyed] {
+	r := fp.Seq[keyed]{}
+	for i := range xs {
+		r = append(r, recAt(xs)(i))
+	}
+	return r
 }
 
 // ---- references shared with the list sub-checks ---------------------------------
